@@ -37,6 +37,8 @@ class Shared:
         self.parser = XmlParser(context=self.ctx, handler=XmlEventHandler)
         self.serializer = XmlSerializer(context=self.ctx, config=SerializerConfig(xml_declaration=False), writer=XmlEventWriter)
         self.decoder = DictDecoder(context=self.ctx)
+        from xsdata.formats.dataclass.parsers.config import ParserConfig
+        self.lenient = XmlParser(context=self.ctx, config=ParserConfig(fail_on_unknown_properties=False), handler=XmlEventHandler)
 
 
 def op_parse_typed(s): return s.parser.from_string(DOC_PLAIN, M.Doc)
@@ -48,6 +50,9 @@ def op_serialize(s): return s.serializer.render(M.Doc(item=M.Special(v="a", extr
 def op_serialize_plain(s): return s.serializer.render(M.Doc(item=M.Item(v="b", n=2)))
 def op_decode(s): return s.decoder.decode({"item": {"v": "a", "n": 1}, "other": []}, M.Doc)
 def op_parse_a(s): return s.parser.from_string(DOC_A, M.ParentA)
+def op_decode_untyped(s): return s.decoder.decode({"item": {"v": "a", "n": 1}, "other": []})
+def op_decode_wild(s): return s.decoder.decode({"item": None, "other": [{"v": "w", "n": None}]}, M.Doc)
+def op_parse_unknown_lenient(s): return s.lenient.from_string('<doc xmlns="urn:t"><item><v>a</v><nope>1</nope></item><zzz/></doc>', M.Doc)
 
 
 def op_import_then_untyped(s):
@@ -64,6 +69,7 @@ OPS = {
     "parse_typed": op_parse_typed, "parse_untyped": op_parse_untyped, "parse_xsi": op_parse_xsi, "parse_wild": op_parse_wild,
     "parse_special_root": op_parse_special_root, "serialize": op_serialize, "serialize_plain": op_serialize_plain, "decode": op_decode,
     "parse_a": op_parse_a, "import_then_untyped": op_import_then_untyped,
+    "decode_untyped": op_decode_untyped, "decode_wild": op_decode_wild, "parse_unknown_lenient": op_parse_unknown_lenient,
 }
 
 # harnesses forced to collide (threads x operation lists); warm = operations run before the threads start
@@ -78,6 +84,9 @@ HARNESS_SETS = {
     "warm-import-vs-untyped": dict(warm=["parse_untyped"], threads=[["import_then_untyped"], ["parse_untyped"]]),
     "warm-import-vs-xsi": dict(warm=["parse_xsi"], threads=[["import_then_untyped"], ["parse_xsi"]]),
     "cold-two-ops-each": dict(warm=[], threads=[["parse_typed", "parse_untyped"], ["serialize_plain", "parse_xsi"]]),
+    # iteration over the type index / cached metadata in one thread while the other looks up names that are not there
+    "warm-decode-untyped-vs-wild": dict(warm=["parse_untyped"], threads=[["decode_untyped"], ["parse_wild"]]),
+    "warm-decode-wild-vs-unknown": dict(warm=["parse_typed"], threads=[["decode_wild"], ["parse_unknown_lenient"]]),
 }
 HARNESS_SETS_3 = {
     "cold-3-untyped-typed-xsi": dict(warm=[], threads=[["parse_untyped"], ["parse_typed"], ["parse_xsi"]]),
